@@ -17,7 +17,8 @@ RULE_TEXT = ("C06-R: per loop-body path of Interface::run - Incomplete: no repor
              "buffers and the two offsets. C06-O/C06-A (witness interfaces): in generated arms nothing fallible follows "
              "the handler call and the handler's error is propagated by `?` unchanged."
              " C06-C03V/C03N: the conversion rules and the argument-vector rule of C03 (no wrapping or truncating conversion, no discarded push)."
-             " C06-T/C06-D: on every witness interface the emitted trie accepts exactly the declared spellings and the dispatcher has one arm per declaration (rules C01-T/D) - an undefined header is a fault. C06-F: `no call` only for an empty message.")
+             " C06-T/C06-D: on every witness interface the emitted trie accepts exactly the declared spellings and the dispatcher has one arm per declaration (rules C01-T/D) - an undefined header is a fault. C06-F: `no call` only for an empty message."
+             " C06-N: every recogniser that can itself run across a newline (take_while over a class containing 10, slice by a data value) delivers Value::String or Value::Arbitrary - a complete message is never answered Incomplete.")
 
 PROCESS = "microscpi::interface::Interface::process"
 EXECUTE = runsum.EXECUTE
@@ -106,6 +107,10 @@ def run(ck):
     # a header that no declaration spells is a fault: the emitted trie accepts exactly the declared spellings (C01-T/D on
     # the witness interfaces)
     c01.rule_T(ck, T="C06-T", D="C06-D")
+    # a complete message (one that leaves no string or block open) is never answered Incomplete: nothing but the string
+    # and block recognisers can consume the terminator byte
+    import c08
+    c08.rule_N(ck, lib, skeleton.Skeleton(ck, lib), "C06-N")
 
 
 def rule_R(ck, lib, RID):
